@@ -222,9 +222,29 @@ def cases_for(ctx):
     return out
 
 
+def available(res):
+    """The table-level tie looks INSIDE the implementation (`_compute_spfs_table`, its arguments and the layout
+    of its table).  If those internals were refactored away (hook / call / structure fails on a trivial input)
+    the tie is unavailable: a note, not an alarm — the public-API correspondence of the C02 check still decides."""
+    try:
+        tables, _, _, _ = real_tables({"S": [[], []], "O": [{"s": "0", "f": [0]}, {"s": "1", "f": [0]}],
+                                       "costs": {"spe": 0, "dup": 1, "hgt": 1, "floss": 1, "sloss": 1}},
+                                      "ext_spfs", "all")
+        if not tables:
+            raise RuntimeError("_compute_spfs_table was not called")
+        return True
+    except Exception as e:  # noqa
+        res.notes.append(f"table-level tie (c02_code) unavailable: internals changed ({type(e).__name__}: {str(e)[:120]})")
+        res.dist["code-table tie unavailable"] += 1
+        return False
+
+
 def run_code(ctx, res):
-    check_cases(ctx, res, cases_for(ctx))
+    if available(res):
+        check_cases(ctx, res, cases_for(ctx))
 
 
 def corpus_code(ctx, res, corpus):
+    if not available(res):
+        return
     check_cases(ctx, res, [c for c in corpus if any("f" in l for _, l in solvers._leaves(c["O"]))])
